@@ -1040,8 +1040,16 @@ func (vm *VirtualMachine) importModule(ctx context.Context, name string) (*objec
 	baseSP := vm.sp
 	code := vm.loadCode(module.Code())
 	vm.activateCode(vm.fp+1, 0, code)
-	// Restore the previous frame when done
-	defer vm.resumeFrame(baseFP, baseIP, baseSP)
+	// Restore the previous frame when done. A module is evaluated for its
+	// globals, not for a result: whatever its code left on the stack (the
+	// value of its last statement, or the operands of a failed instruction)
+	// is dropped, so that the importer finds the stack as it was.
+	defer func() {
+		vm.resumeFrame(baseFP, baseIP, baseSP)
+		for vm.sp > baseSP {
+			vm.pop()
+		}
+	}()
 	// Evaluate the module code
 	if err := vm.eval(ctx); err != nil {
 		return nil, err
